@@ -114,7 +114,7 @@ def run(ctx):
     for c in dcases:
         il, ml = impl.get(c["id"], ["<missing>"]), model.get(c["id"], ["<missing>"])
         c["oracle"] = check_direct(sch, c, il)
-        if any(l.startswith("CRASH") for l in il): c["oracle"].append(("C03", "implementation crashed: " + [l for l in il if l.startswith("CRASH")][0][:200]))
+        if any(l.startswith("CRASH") for l in il): c["oracle"].append(("CRASH", "the implementation crashed on directly built blocks: " + [l for l in il if l.startswith("CRASH")][0][:200]))
         a, b = histgen.canon_lines(il), histgen.canon_lines(ml)
         if a != b:
             k = next((j for j in range(min(len(a), len(b))) if a[j] != b[j]), min(len(a), len(b)))
